@@ -1308,6 +1308,13 @@ func (e *Engine) Run(prop string, ch *kernel.Chooser, st *kernel.Stats) kernel.R
 	in := drawInstall(ch, forC16)
 	// C16: syntax defined by a plugin (public parse helpers) precedes the program; the program's nesting ground
 	// truth applies to the tokens after it, the prefix has a ground truth of its own (plain blocks, no function)
+	hostDriven := forC16 && ch.Bool(1, 6)
+	if hostDriven {
+		// the host loops over ParseStatement()/NextToken() itself instead of calling ParseProgram
+		xutil.HostDriven = true
+		defer func() { xutil.HostDriven = false }()
+		st.Inc("probe.host_driven_statement_loop")
+	}
 	ordShift, syntaxRun := 0, false
 	var prefixDepth []int
 	if forC16 && valid && text == p.Text && ch.Bool(1, 6) {
